@@ -9,6 +9,7 @@ import (
 	"strconv"
 	"strings"
 	gotime "time"
+	"unicode/utf16"
 
 	"github.com/yorkie-team/yorkie/pkg/document/crdt"
 	"github.com/yorkie-team/yorkie/pkg/document/json"
@@ -293,7 +294,7 @@ func Apply(root *json.Object, p *presence.Presence, e *Edit) error {
 		}
 	case "txt.edit":
 		t, ok := c.(*json.Text)
-		if !ok {
+		if !ok || e.I > e.J || e.J > len(utf16.Encode([]rune(t.String()))) {
 			return ErrUnresolvable
 		}
 		if e.A != nil {
@@ -303,7 +304,7 @@ func Apply(root *json.Object, p *presence.Presence, e *Edit) error {
 		}
 	case "txt.style":
 		t, ok := c.(*json.Text)
-		if !ok {
+		if !ok || e.I >= e.J || e.J > len(utf16.Encode([]rune(t.String()))) {
 			return ErrUnresolvable
 		}
 		t.Style(e.I, e.J, e.A)
@@ -321,7 +322,7 @@ func Apply(root *json.Object, p *presence.Presence, e *Edit) error {
 		}
 	case "tree.edit":
 		t, ok := c.(*json.Tree)
-		if !ok {
+		if !ok || e.I > e.J || e.J > t.Len() {
 			return ErrUnresolvable
 		}
 		if len(e.T) == 0 {
@@ -339,13 +340,13 @@ func Apply(root *json.Object, p *presence.Presence, e *Edit) error {
 		}
 	case "tree.style":
 		t, ok := c.(*json.Tree)
-		if !ok {
+		if !ok || e.I >= e.J || e.J > t.Len() {
 			return ErrUnresolvable
 		}
 		t.Style(e.I, e.J, e.A)
 	case "tree.rmstyle":
 		t, ok := c.(*json.Tree)
-		if !ok {
+		if !ok || e.I >= e.J || e.J > t.Len() {
 			return ErrUnresolvable
 		}
 		t.RemoveStyle(e.I, e.J, e.Keys)
